@@ -254,6 +254,11 @@ func (k *c16Keys) mk(tok string) *sidecar.Ticket {
 		t.Offer.SigOfferDigest = nil
 	case "x":
 		t.Offer.SigOfferDigest = k.badSig
+	case "y":
+		// the signature the recipient stored at registration, but a signed
+		// offer field changed afterwards (the version-0 order digest does
+		// not cover it, so an order signature can stay valid)
+		t.Offer.Auto = !t.Offer.Auto
 	default:
 		d, _ := t.OfferDigest()
 		t.Offer.SigOfferDigest = k.sign(d)
@@ -314,6 +319,8 @@ type c16Side struct {
 	gen        *c16Gen
 	registered bool // entry in SidecarAcceptor.negotiators
 	afterErr   int32
+	initFail   int32 // the next mailbox (re-)initialisation fails
+	started    int32 // the reader's first RecvSidecarPkt was seen
 	// scripted answers (single-step tests); nil = the real driver
 	script *c16Script
 }
@@ -580,6 +587,11 @@ func (s *c16Side) initMailbox() error {
 	if atomic.CompareAndSwapInt32(&s.afterErr, 1, 0) {
 		s.eff("init")
 	}
+	if atomic.CompareAndSwapInt32(&s.initFail, 1, 0) {
+		// the hashmail server is still unreachable (a plain error, not
+		// AlreadyExists)
+		return errors.New("hashmail server unreachable")
+	}
 	return nil
 }
 func (s *c16Side) InitSidecarMailbox([64]byte, *sidecar.Ticket) error { return s.initMailbox() }
@@ -749,12 +761,33 @@ const (
 // with nothing to do (or gone), no TicketExecuted goroutine is in flight and
 // the reader is back in RecvSidecarPkt (or gone). alive = main loop exists.
 func (w *c16World) parked(prov bool) (quiet, alive bool) {
+	quiet, alive, _ = w.parked3(prov)
+	return
+}
+
+// readerGone: the main loop runs but its mailbox reader goroutine has ended.
+func (w *c16World) readerGone(prov bool) bool {
+	_, alive, reader := w.parked3(prov)
+	return alive && !reader && w.readerShouldRun(prov)
+}
+
+// readerShouldRun: the negotiator was started and nobody asked it to stop.
+func (w *c16World) readerShouldRun(prov bool) bool {
+	s := w.side(prov)
+	return atomic.LoadInt32(&s.started) == 1 && s.neg != nil && !s.neg.VerifC16QuitClosed()
+}
+
+func (w *c16World) parked3(prov bool) (quiet, alive, reader bool) {
 	mainFn := c16RecvMain
 	if prov {
 		mainFn = c16ProvMain
 	}
+	readerFn := "\n" + mainFn[:len(mainFn)-1] + ".func"
 	quiet = true
 	for _, g := range c16Goroutines() {
+		if strings.Contains(g.body, readerFn) {
+			reader = true
+		}
 		if (strings.Contains(g.body, c16TExec) && !strings.Contains(g.body, "main.(*c16World)")) ||
 			strings.Contains(g.body, "created by "+c16StepPrefix) {
 			// (a goroutine spawned by a step function that has not run yet
@@ -777,6 +810,10 @@ func (w *c16World) parked(prov bool) (quiet, alive bool) {
 	dead := w.side(prov).gen != nil && w.side(prov).gen.dead.Load()
 	if alive && !dead && atomic.LoadInt32(w.waiting[b01(prov)]) == 0 {
 		quiet = false
+		if !reader && w.readerShouldRun(prov) {
+			// the reader has ended for good: nothing more will happen
+			quiet = true
+		}
 	}
 	return
 }
@@ -824,7 +861,13 @@ func (w *c16World) summary() string {
 		}
 		return cur + "/" + w.k.tok(w.persisted(prov))
 	}
-	return fmt.Sprintf("P=%s R=%s bids=%d", part(true), part(false), w.bids)
+	gone := ""
+	for _, pv := range []bool{true, false} {
+		if w.readerGone(pv) {
+			gone += " READER-GONE(" + w.side(pv).name() + ")"
+		}
+	}
+	return fmt.Sprintf("P=%s R=%s bids=%d%s", part(true), part(false), w.bids, gone)
 }
 
 // startNegotiator mirrors CoordinateSidecar / AutoAcceptSidecar (first start)
@@ -862,6 +905,7 @@ func (w *c16World) startNegotiator(prov bool, first bool) {
 		s.neg = pool.NewSidecarNegotiator(cfg)
 		s.registered = true
 		atomic.StoreInt32(w.waiting[b01(prov)], 0)
+		atomic.StoreInt32(&s.started, 0)
 		if err := s.neg.Start(); err != nil {
 			panic(err)
 		}
@@ -870,6 +914,7 @@ func (w *c16World) startNegotiator(prov bool, first bool) {
 		for j := 0; j < 200000 && atomic.LoadInt32(w.waiting[b01(prov)]) == 0; j++ {
 			time.Sleep(10 * time.Microsecond)
 		}
+		atomic.StoreInt32(&s.started, 1)
 	}
 }
 
@@ -933,14 +978,14 @@ func (w *c16World) msgs(prov bool) [][]byte {
 // hand gives one message (or a receive error) to the side's reader.
 func (w *c16World) hand(prov bool, m c16Msg) bool {
 	// the reader counts as busy from now until it is back in RecvSidecarPkt
-	for j := 0; j < 200000 && atomic.LoadInt32(w.waiting[b01(prov)]) == 0; j++ {
+	for j := 0; j < 100000 && atomic.LoadInt32(w.waiting[b01(prov)]) == 0; j++ {
 		time.Sleep(10 * time.Microsecond)
 	}
 	atomic.StoreInt32(w.waiting[b01(prov)], 0)
 	select {
 	case w.inCh[b01(prov)] <- m:
 		return true
-	case <-time.After(2 * time.Second):
+	case <-time.After(time.Second):
 		return false
 	}
 }
@@ -955,6 +1000,9 @@ func (w *c16World) deliver(prov bool, i int) string {
 	if i >= len(ms) || !w.alive(prov) {
 		return "not-enabled"
 	}
+	if w.readerGone(prov) {
+		return "UNDELIVERABLE|" + w.summary()
+	}
 	if !w.hand(prov, c16Msg{data: ms[i]}) {
 		return "HANG-deliver"
 	}
@@ -962,11 +1010,14 @@ func (w *c16World) deliver(prov bool, i int) string {
 	return w.takeEffs() + "|" + w.summary()
 }
 
-func (w *c16World) recvErr(prov bool) string {
-	if !w.alive(prov) {
+func (w *c16World) recvErr(prov bool, reinitFails bool) string {
+	if !w.alive(prov) || w.readerGone(prov) {
 		return "not-enabled"
 	}
 	atomic.StoreInt32(&w.side(prov).afterErr, 1)
+	if reinitFails {
+		atomic.StoreInt32(&w.side(prov).initFail, 1)
+	}
 	if !w.hand(prov, c16Msg{err: errors.New("injected receive error")}) {
 		return "HANG-rerr"
 	}
@@ -1279,6 +1330,12 @@ func (o *c16Oracle) fail(format string, a ...interface{}) {
 // afterOp evaluates the safety clauses after one harness operation.
 func (o *c16Oracle) afterOp(op string, out string) {
 	w := o.w
+	// (0) liveness / cancel-ends-both precondition: a running negotiator
+	// keeps reading its mailbox, whatever receive errors happened
+	if strings.Contains(out, "READER-GONE") || strings.HasPrefix(out, "UNDELIVERABLE") {
+		o.fail("the mailbox reader of a running negotiator has ended (after %q: %s): no ticket sent to this side - "+
+			"neither the ordered ticket nor a cancellation - can ever be delivered, without any restart", op, out)
+	}
 	// (1) at most one bid
 	if w.bids > 1 {
 		o.fail("provider submitted %d bids for one ticket (after %q)", w.bids, op)
@@ -1393,6 +1450,9 @@ func c16RunSchedule(r *Run, k *c16Keys, ops []string) c16Result {
 	}
 	emit("reset", w.reset())
 	for _, op := range ops {
+		if o.bad != "" || res.hang {
+			break // stop the case at its first violation
+		}
 		f := strings.Fields(op)
 		if len(f) < 2 {
 			continue
@@ -1422,7 +1482,11 @@ func c16RunSchedule(r *Run, k *c16Keys, ops []string) c16Result {
 			}
 			continue
 		case "rerr":
-			out = w.recvErr(prov)
+			out = w.recvErr(prov, false)
+		case "outage":
+			// receive error while the server stays unreachable for the
+			// first reconnect attempt, then comes back
+			out = w.recvErr(prov, true)
 		case "restart":
 			out = w.restart(prov)
 		case "crash":
@@ -1610,12 +1674,64 @@ func c16RandTicket(r *Run, mostlyValid bool) string {
 		case 1:
 			return fmt.Sprintf("0.%d.v.1.1n", st)
 		default:
+			if r.Rng.Intn(12) == 0 {
+				return fmt.Sprintf("0.%d.y.1.1v", st)
+			}
 			return fmt.Sprintf("0.%d.v.1.1v", st)
 		}
 	}
 	id := pick("0", "0", "0", "1")
-	return fmt.Sprintf("%s.%d.%s.%s.%s", id, st, pick("v", "v", "v", "x", "n"), pick("0", "1", "1"),
+	return fmt.Sprintf("%s.%d.%s.%s.%s", id, st, pick("v", "v", "v", "x", "n", "y"), pick("0", "1", "1"),
 		pick("-", "1n", "1v", "1v", "1x", "0v", "2v", "2n"))
+}
+
+// c16Situation returns (state, receiver ticket, provider ticket) as they meet
+// in honest runs, with one ticket field deviating in 60% of the cases.
+func c16Situation(r *Run, prov bool) (int, string, string) {
+	type sit struct {
+		cur      int
+		recv, pv string
+	}
+	const (
+		off = "0.1.v.0.1n"
+		reg = "0.2.v.1.1n"
+		ord = "0.3.v.1.1v"
+		exp = "0.4.v.1.1v"
+		can = "0.6.v.1.1v"
+	)
+	var sits []sit
+	if prov {
+		// receiver ticket = incoming, provider ticket = local
+		sits = []sit{{0, off, off}, {1, reg, off}, {2, reg, reg}, {3, reg, ord}, {4, reg, exp},
+			{2, can, reg}, {4, can, exp}, {4, exp, exp}, {2, reg, ord}}
+	} else {
+		// receiver ticket = local, provider ticket = incoming
+		sits = []sit{{2, reg, reg}, {2, reg, ord}, {2, reg, ord}, {4, exp, ord}, {2, reg, off}, {4, exp, off},
+			{2, reg, can}, {4, exp, can}, {4, exp, exp}}
+	}
+	st := sits[r.Rng.Intn(len(sits))]
+	if r.Rng.Intn(10) < 6 {
+		which := &st.pv
+		if r.Rng.Intn(3) == 0 {
+			which = &st.recv
+		}
+		f := strings.Split(*which, ".")
+		pick := func(xs ...string) string { return xs[r.Rng.Intn(len(xs))] }
+		switch r.Rng.Intn(5) {
+		case 0:
+			f[0] = "1"
+		case 1:
+			f[1] = strconv.Itoa(r.Rng.Intn(8))
+		case 2:
+			f[2] = pick("x", "n", "y", "y")
+		case 3:
+			f[3] = pick("0", "1")
+		default:
+			f[4] = pick("-", "1n", "1x", "0v", "0n", "2v", "2n", "1v")
+		}
+		*which = strings.Join(f, ".")
+	}
+	return st.cur, st.recv, st.pv
 }
 
 func c16RunSteps(r *Run, k *c16Keys, n int) {
@@ -1634,6 +1750,12 @@ func c16RunSteps(r *Run, k *c16Keys, n int) {
 		cur := c16States[r.Rng.Intn(7)]
 		mostly := r.Rng.Intn(4) != 0
 		recv, pv := c16RandTicket(r, mostly), c16RandTicket(r, mostly)
+		if r.Rng.Intn(3) == 0 {
+			// a situation of an honest run, with at most one field of one
+			// of the two tickets changed
+			cur, recv, pv = c16Situation(r, prov)
+			r.Count("step/situation")
+		}
 		sc := &c16Script{sendOk: r.Rng.Intn(8) != 0, updOk: r.Rng.Intn(8) != 0}
 		var op string
 		if prov {
@@ -1674,12 +1796,82 @@ func c16RunSteps(r *Run, k *c16Keys, n int) {
 					"offer/order signatures of the provider for a ticket it registered", "C16/safety", []string{op})
 			}
 		}
+		// the ticket the provider hands back after a real, successful bid
+		// submission carries its valid order signature for THAT bid
+		if prov && strings.HasPrefix(sc.submit, "real") && strings.HasPrefix(out, "ok 3 ") {
+			tk := strings.SplitN(strings.Fields(out)[3], "|", 2)[0]
+			ft := strings.Split(tk, ".")
+			if !(len(ft) == 5 && ft[4] == "1v") {
+				r.Count("oracle/violation")
+				r.Violate("provider submitted the bid but the ordered ticket "+tk+
+					" does not carry its valid order signature over the nonce of the submitted bid",
+					"C16/safety", []string{op})
+			}
+		}
 		if strings.Contains(out, "sub:") && strings.Contains(out, ":exists") && strings.HasPrefix(sc.submit, "real") {
 			r.Violate("the real order manager now reports ErrOrderExists in a way errors.Is matches; "+
 				"stateStepProvider then continues with a nil ticket", "C16/errexists-branch-live", op)
 		}
 	}
 	w.bids = 0
+}
+
+// c16DBSeq runs a sequence of real clientdb UpdateSidecar calls on a store
+// prepared with AddSidecarWithBid ("bid"), AddSidecar ("plain") or nothing.
+func c16DBSeq(r *Run, k *c16Keys, w *c16World, kind string, items []string) string {
+	db := w.newDB("dbseq")
+	defer db.Close()
+	t := k.base()
+	switch kind {
+	case "bid":
+		t.Order = nil
+		if err := db.AddSidecarWithBid(t, k.newBid()); err != nil {
+			panic(err)
+		}
+	case "plain":
+		if err := db.AddSidecar(t); err != nil {
+			panic(err)
+		}
+	}
+	var outs []string
+	for _, it := range items {
+		st, _ := strconv.Atoi(it[:len(it)-1])
+		u := k.base()
+		u.State = sidecar.State(st)
+		switch it[len(it)-1] {
+		case 'n':
+			u.Order = nil
+		case 'z':
+			u.Order = &sidecar.Order{}
+		default:
+			u.Order = &sidecar.Order{BidNonce: k.bidNonce}
+		}
+		outs = append(outs, b01(db.UpdateSidecar(u) == nil))
+	}
+	return strings.Join(outs, ",")
+}
+
+func c16RunDBSeqs(r *Run, k *c16Keys, n int) {
+	w := newC16World(r, k)
+	defer w.close()
+	for c := 0; c < n; c++ {
+		kind := []string{"bid", "bid", "plain", "none"}[r.Rng.Intn(4)]
+		var items []string
+		for i := 0; i < 1+r.Rng.Intn(5); i++ {
+			st := []int{1, 2, 4, 5, 6, 5, 6}[r.Rng.Intn(7)]
+			items = append(items, fmt.Sprintf("%d%c", st, "nzbbb"[r.Rng.Intn(5)]))
+		}
+		out := c16DBSeq(r, k, w, kind, items)
+		r.Emit("C16 db "+kind+" "+strings.Join(items, ","), out)
+		r.Evaluations++
+		r.Count("db/" + kind)
+		if kind != "none" && strings.Contains(out, "0") {
+			r.Count("oracle/violation")
+			r.Violate("UpdateSidecar of a stored ticket failed ("+kind+": "+strings.Join(items, ",")+" -> "+out+
+				"): a side can no longer persist its (final) ticket state", "C16/safety",
+				[]string{"db " + kind + " " + strings.Join(items, ",")})
+		}
+	}
 }
 
 // c16ReplayStep re-runs one recorded single-step op.
@@ -1909,6 +2101,10 @@ func runC16(r *Run) {
 	}
 	runRec := func(kind string) func(ops []string) c16Result {
 		return func(ops []string) c16Result {
+			if len(r.Violations) >= 20 {
+				// enough failing inputs: do not run any more cases
+				return c16Result{lines: [][2]string{{"C16 skipped", "-"}}, hang: true, final: "skipped"}
+			}
 			t0 := time.Now()
 			res := c16RunSchedule(r, k, ops)
 			r.Hist["ms/"+kind] += int(time.Since(t0).Milliseconds())
@@ -1924,6 +2120,20 @@ func runC16(r *Run) {
 			continue
 		}
 		r.Count("case/fixed")
+		if len(c) == 1 && strings.HasPrefix(c[0], "db ") {
+			f := strings.Fields(c[0])
+			if len(f) == 3 {
+				w := newC16World(r, k)
+				out := c16DBSeq(r, k, w, f[1], strings.Split(f[2], ","))
+				w.close()
+				r.Emit("C16 "+c[0], out)
+				r.Evaluations++
+				if f[1] != "none" && strings.Contains(out, "0") {
+					r.Violate("UpdateSidecar of a stored ticket failed: "+out, "C16/safety", []string{c[0]})
+				}
+			}
+			continue
+		}
 		if len(c) == 1 && strings.HasPrefix(c[0], "step") {
 			c16ReplayStep(r, k, c[0])
 			continue
@@ -1951,6 +2161,7 @@ func runC16(r *Run) {
 	t0 := time.Now()
 	c16RunSteps(r, k, nSteps)
 	r.Hist["ms/steps"] += int(time.Since(t0).Milliseconds())
+	c16RunDBSeqs(r, k, 40+r.N/10)
 
 	// (b) exhaustive shallow schedules + random deep ones
 	depth := 5
@@ -1983,6 +2194,13 @@ func runC16(r *Run) {
 		{"dlv P 0", "dlv R 0", "complete P", "complete R", "restart P", "restart R"},
 		{"restart P", "dlv R 0", "dlv P 0", "dlv P 1", "cancel P", "dlv R 2", "dlv R 1"},
 	}
+	// a mailbox outage (receive error + failing reconnect) on either side,
+	// then the negotiation / a cancellation must still get through
+	directed = append(directed,
+		[]string{"outage R", "dlv P 0", "dlv R 0", "cancel P", "dlv R 1"},
+		[]string{"outage P", "dlv P 0", "dlv R 0"},
+		[]string{"dlv P 0", "outage R", "outage P", "dlv R 0", "dlv P 0", "cancel P", "dlv R 2"},
+		[]string{"outage P", "outage R", "cancel R", "dlv P 1"})
 	// a cancellation by either side at every point the provider can be
 	// resumed from (crash after k driver/mailbox calls of its first handler)
 	for kk := 0; kk <= 4; kk++ {
@@ -2049,6 +2267,17 @@ func runC16(r *Run) {
 	// (c) liveness clause: no restarts, every sent ticket eventually delivered
 	for c := 0; c < r.N/10+5; c++ {
 		ops := c16RandomSchedule(r, r.Rng.Intn(8), true)
+		// mailbox receive errors, with and without a failing reconnect, on
+		// either side at random points of the prefix (the clause is
+		// quantified over them)
+		if c%2 == 0 {
+			faults := []string{"rerr P", "rerr R", "outage P", "outage R", "outage R", "outage P"}
+			for k := 0; k < 1+r.Rng.Intn(2); k++ {
+				at := r.Rng.Intn(len(ops) + 1)
+				f := faults[r.Rng.Intn(len(faults))]
+				ops = append(ops[:at], append([]string{f}, ops[at:]...)...)
+			}
+		}
 		// fair suffix: deliver every ticket sent so far, repeatedly
 		for round := 0; round < 3; round++ {
 			for i := 0; i < 6; i++ {
@@ -2056,7 +2285,10 @@ func runC16(r *Run) {
 			}
 		}
 		res := runRec("fair")(ops)
-		if !(strings.Contains(res.final, "P=4/") && strings.Contains(res.final, " R=4/")) {
+		if res.final == "skipped" {
+			break
+		}
+		if res.bad == "" && !(strings.Contains(res.final, "P=4/") && strings.Contains(res.final, " R=4/")) {
 			r.Count("oracle/violation")
 			r.Violate("no restarts and every ticket delivered, but the parties did not both reach expecting-channel: "+res.final,
 				"C16/liveness", ops)
